@@ -108,6 +108,14 @@ Proof.
 Qed.
 Print Assumptions C08_dead_reckoning_same_step.
 
+(* the step configured through frequency=: every estimator's constructor derives Dt = 1/f exactly (Dt * f = 1), at
+   sampling rates whose period is not a round decimal (30, 60, 75, 128, 256, 333 Hz) as well as 50, 100, 1000 Hz *)
+Theorem C08_step_is_inverse_frequency : forall u,
+  C08_Dt_R u = Val (periods ++ periods ++ periods ++ periods ++ periods ++ periods) /\
+  Forall2 (fun p f => p * f = 1) periods freqs /\ length periods = 9%nat.
+Proof. intros u. split; [apply Dt_val|]. split; [exact periods_inverse|reflexivity]. Qed.
+Print Assumptions C08_step_is_inverse_frequency.
+
 (* angular velocities: QuaternionArray([p,q]).angular_velocities(0.01)[0] = 2/dt vec(p* (x) q) for unit rows; applied to a
    closed-form (constant-rate) step it returns the exact axis with the magnitude scaled by sin(h)/h, h = |w| dt/2 — so
    re-integrating reproduces the sequence up to h - sin h <= h^3/6 per step (angvel_inverse_partial: the O(h^3) defect is
